@@ -177,6 +177,35 @@ def expected_request(op: dict, args: dict, doc: dict, base_path: str = "") -> di
     return exp
 
 
+def match_raw_path(template: str, base_path: str, raw_path: str) -> dict[str, str] | None:
+    """Extract slot values the way a server's router does: split the RAW (still percent-encoded) path into segments,
+    match segment by segment, decode each slot afterwards.  A value with a reserved character therefore only arrives if
+    the client percent-encoded it inside its own slot (a/b -> a%2Fb)."""
+    base = base_path.rstrip("/")
+    if not raw_path.startswith(base):
+        return None
+    t_segs = template.split("/")
+    r_segs = raw_path[len(base):].split("/")
+    if len(t_segs) != len(r_segs):
+        return None
+    out: dict[str, str] = {}
+    for t, rs in zip(t_segs, r_segs):
+        parts = PATH_RE.split(t)
+        rx = "^"
+        names = []
+        for i, part in enumerate(parts):
+            if i % 2 == 0:
+                rx += re.escape(part)
+            else:
+                names.append(part)
+                rx += "(.*)"
+        m = re.match(rx + "$", urllib.parse.unquote(rs), re.S)
+        if not m:
+            return None
+        out.update(zip(names, m.groups()))
+    return out
+
+
 def match_path(template: str, base_path: str, actual_path: str) -> dict[str, str] | None:
     """Extract slot values the way a server would: template -> regex, one group per placeholder."""
     parts = PATH_RE.split(template)
@@ -381,9 +410,9 @@ def check_request(exp: dict, req: dict, doc: dict, allowed_headers: set[str]) ->
     out: list[tuple[str, str]] = []
     if req["method"] != exp["method"]:
         out.append(("wrong-method", f"{req['method']} sent, operation is {exp['method']}"))
-    slots = match_path(exp["path_template"], exp["base_path"], req["path"])
+    slots = match_raw_path(exp["path_template"], exp["base_path"], req["raw_path"]) if "raw_path" in req else match_path(exp["path_template"], exp["base_path"], req["path"])
     if slots is None:
-        out.append(("wrong-path", f"path {req['path']!r} does not match {exp['base_path']}{exp['path_template']}"))
+        out.append(("wrong-path", f"path {req.get('raw_path', req['path'])!r} does not match {exp['base_path']}{exp['path_template']}"))
     else:
         for name, alts in exp["path_slots"].items():
             if slots.get(name) not in alts:
